@@ -868,6 +868,31 @@ func (c *Ctx) orderInsensitive(fi *load.FuncInfo, g *cfgx.Graph, rs *ast.RangeSt
 					if !ok {
 						continue
 					}
+					// the comparator compares elements: both of its index parameters index the sorted slice
+					if lit.Type.Params != nil {
+						var ps []types.Object
+						for _, f := range lit.Type.Params.List {
+							for _, nm := range f.Names {
+								ps = append(ps, info.Defs[nm])
+							}
+						}
+						if len(ps) == 2 {
+							used := map[types.Object]bool{}
+							ast.Inspect(lit.Body, func(m ast.Node) bool {
+								if ie, ok := m.(*ast.IndexExpr); ok {
+									if xid, ok := ast.Unparen(ie.X).(*ast.Ident); ok && astx.Obj(info, xid) == o {
+										if iid, ok := ast.Unparen(ie.Index).(*ast.Ident); ok {
+											used[astx.Obj(info, iid)] = true
+										}
+									}
+								}
+								return true
+							})
+							if !used[ps[0]] || !used[ps[1]] {
+								return false, "", "the comparator handed to the sort does not compare the elements at its two indices (it never reads " + o.Name() + "[" + ps[0].Name() + "] and " + o.Name() + "[" + ps[1].Name() + "]): nothing is ordered and the slice keeps the map's iteration order"
+							}
+						}
+					}
 					var compared []*types.Var
 					ast.Inspect(lit.Body, func(m ast.Node) bool {
 						be, ok := m.(*ast.BinaryExpr)
